@@ -381,7 +381,8 @@ requires old(self).wf(),
     // an ERROR token (a character the lexer does not know) only enters the tree after a diagnostic was recorded (C12)
     cur(old(self).st()) == SyntaxKind::ERROR ==> old(self).has_err(),                        //@C12:error-token-needs-error-event
 ensures mono(*old(self), *final(self)),
-    cur(old(self).st()) != SyntaxKind::EOF ==> final(self).pos == old(self).pos + 1,
+    cur(old(self).st()) != SyntaxKind::EOF ==> final(self).pos == old(self).pos + 1
+        && final(self).events@ == old(self).events@.push(Event::Token { kind: cur(old(self).st()), n_raw_tokens: 1 }),
     cur(old(self).st()) == SyntaxKind::EOF ==> final(self).pos == old(self).pos,''')),
         ('error', dict(props=P, trusted=True, note='generic `message.into()` (Into<String>)',
                        spec='requires old(self).wf(),\nensures unmoved(*old(self), *final(self)), final(self).has_err(), evf(old(self).events@, final(self).events@, old(self).events@.len() as int),   // (pushes one Error event)')),
@@ -632,6 +633,9 @@ use super::*;
         'stmt': dict(rewrites=[('GHOST-nested-fn-contract', "    fn let_stmt(p: &mut Parser<'_>, m: Marker) {",
                                 "    fn let_stmt(p: &mut Parser<'_>, m: Marker)\n        requires old(p).wf(), crate::parser::at(old(p).st(), T![let]), crate::parser::pending_at(old(p).events@, m.pos as int),\n        ensures crate::parser::mono_from(*old(p), *final(p), m.pos as int), crate::parser::adv(*old(p), *final(p)),\n        decreases crate::parser::rem(old(p).st()), %dnat,\n    {" % __import__('units.parser_ranks', fromlist=['RANK']).RANK.get('let_stmt', 0))]),
         'expr': dict(rewrites=[D8], closures=True),
+        # C05 (unary expressions nest one operator per node): when the operand of a PREFIX_EXPR is parsed, the node holds exactly its one
+        # operator token -- `- -a` is a prefix expression whose operand is the prefix expression `-a`
+        'lhs': dict(ghost=[('    expr_bp(p, None, r, 255);', 'before', 'proof { assert(p.events@.len() == m.pos + 2 && p.pos == old(p).pos + 1); }      //@C05,C06:prefix-node-has-one-operator\n')]),
         'postfix_expr': dict(ghost=[('{', 'after', 'let ghost lhs0 = lhs;')]),
         'index_operator': dict(ghost=[('m.complete(p, INDEX_OPERATOR);', 'after', 'assume(p.pos == crate::parser::io_end(old(p).st())); /* AP:determinism: where index_operator stops is a function of the token state (tokens, jointness, cursor) alone; the grammar never branches on anything else */')]),
         'range_expr': dict(rewrites=[D8 + (3,)]),
